@@ -27,22 +27,34 @@ static Obj *mkobj (int kind, int k) {
 	objs[nobjs] = o; shadow[nobjs] = *o; nobjs++;
 	return o;
 }
-static void kdestroy (ppointer p) { Obj *o = p; if (ndlog < 4096) { dlog[ndlog][0] = 'K'; dlog[ndlog][1] = o ? o->id : -1; ndlog++; } if (o) o->destroyed++; }
+/* notifiers may be handed anything by a faulty library: only pointers to objects this driver made are looked into (-2 = unknown pointer) */
+static Obj *known (ppointer p) { int i; for (i = nobjs - 1; i >= 0; i--) if (objs[i] == p) return p; return NULL; }
+/* the library's allocator (p_mem_set_vtable): a released block is overwritten before it goes back to the C library, as a debugging
+ * allocator of an application would do - a node read after its release then yields 0xA5 bytes, not the old contents */
+typedef struct { size_t n; size_t pad; } PHdr;
+static ppointer pz_malloc (psize n) { PHdr *h = malloc (sizeof (PHdr) + n); if (!h) return NULL; h->n = n; return h + 1; }
+static void pz_free (ppointer p) { PHdr *h; if (!p) return; h = (PHdr *) p - 1; memset (p, 0xA5, h->n); free (h); }
+static ppointer pz_realloc (ppointer p, psize n) { ppointer q; if (!p) return pz_malloc (n); q = pz_malloc (n); if (!q) return NULL; memcpy (q, p, ((PHdr *) p - 1)->n < n ? ((PHdr *) p - 1)->n : n); pz_free (p); return q; }
+static void kdestroy (ppointer p) { Obj *o = p; if (p && !known (p)) { if (ndlog < 4096) { dlog[ndlog][0] = 'K'; dlog[ndlog][1] = -2; ndlog++; } return; } if (ndlog < 4096) { dlog[ndlog][0] = 'K'; dlog[ndlog][1] = o ? o->id : -1; ndlog++; } if (o) o->destroyed++; }
 /* a value object that is inserted again while it is stored (op insv) counts as a new insertion with an id of its own: a notification that arrives
  * during that insert call is for the stored (previous) incarnation */
-static void vdestroy (ppointer p) { Obj *o = p; int id = o ? o->id : -1; if (o && o->reins) { id = o->prev_id; o->reins = 0; } if (ndlog < 4096) { dlog[ndlog][0] = 'V'; dlog[ndlog][1] = id; ndlog++; } if (o) o->destroyed++; }
+static void vdestroy (ppointer p) { Obj *o = p; int id; if (p && !known (p)) { if (ndlog < 4096) { dlog[ndlog][0] = 'V'; dlog[ndlog][1] = -2; ndlog++; } return; } id = o ? o->id : -1; if (o && o->reins) { id = o->prev_id; o->reins = 0; } if (ndlog < 4096) { dlog[ndlog][0] = 'V'; dlog[ndlog][1] = id; ndlog++; } if (o) o->destroyed++; }
+/* any total order is a comparator: only the sign of the result means something.  The style changes with every tree: -1/0/1, the
+ * difference of the keys, large magnitudes */
+static int cstyle, ntrees;
+static pint cres (int x, int y) { if (x == y) return 0; if (cstyle == 1) return x - y; if (cstyle == 2) return x < y ? -1000000 : 7; return x < y ? -1 : 1; }
 static pint cmp_data (pconstpointer a, pconstpointer b, ppointer data) {
 	const Obj *x = a, *y = b;
 	if (wd ? data != &cookie : data != NULL) data_bad = 1;
 	ncmp++;
 	if (rec_on && npath < 256) path[npath++] = y->k;
-	return x->k < y->k ? -1 : (x->k > y->k ? 1 : 0);
+	return cres (x->k, y->k);
 }
 static pint cmp_plain (pconstpointer a, pconstpointer b) {
 	const Obj *x = a, *y = b;
 	ncmp++;
 	if (rec_on && npath < 256) path[npath++] = y->k;
-	return x->k < y->k ? -1 : (x->k > y->k ? 1 : 0);
+	return cres (x->k, y->k);
 }
 static int intact (void) {
 	int i;
@@ -95,6 +107,7 @@ int main (int argc, char **argv) {
 	in = fopen (argv[1], "r"); if (!in) { perror (argv[1]); return 2; }
 	vt_open (argv[2]);
 	p_libsys_init (); p_libsys_shutdown (); p_libsys_init ();      /* the library is used after a shutdown / re-initialisation cycle */
+	{ PMemVTable vt; vt.f_malloc = pz_malloc; vt.f_realloc = pz_realloc; vt.f_free = pz_free; if (!p_mem_set_vtable (&vt)) vt_die ("vtable"); }
 	while (fgets (line, sizeof line, in)) {
 		a = b = c = 0;
 		if (sscanf (line, "%31s %d %d %d", op, &a, &b, &c) < 1) continue;
@@ -107,7 +120,7 @@ int main (int argc, char **argv) {
 			vt_emit ("{\"e\":\"Reset\"}");
 		}
 		else if (!strcmp (op, "new")) {
-			ty = a; nf = b; wd = c;
+			ty = a; nf = b; wd = c; cstyle = ntrees++ % 3;
 			/* nf: 0 no notifiers, 1 both, 2 key only, 3 value only */
 			if (nf) tree = p_tree_new_full ((PTreeType) ty, cmp_data, wd ? &cookie : NULL, nf == 3 ? NULL : kdestroy, nf == 2 ? NULL : vdestroy);
 			else if (wd) tree = p_tree_new_with_data ((PTreeType) ty, cmp_data, &cookie);
@@ -193,6 +206,7 @@ int main (int argc, char **argv) {
 		else vt_die ("bad script op");
 	}
 	if (tree) p_tree_free (tree);
+	p_mem_restore_vtable ();      /* what the library allocated before the table was installed is released by the allocator it came from */
 	p_libsys_shutdown ();
 	vt_close ();
 	return 0;
